@@ -3,7 +3,7 @@
 # quick tier of the check that found the defect: the violation must come back (exit 1).  A "fixed:" entry in
 # known_findings.txt suppresses nothing; this shows it.  Output: scratch/revert_check.log
 L=/verif/scratch/revert_check.log; mkdir -p /verif/scratch; : > $L
-PAIRS="${@:-6a6860d:C20 d932a21:C20 987ab54:C15 7323a77:C08 3f081f5:C08 5a24c97:C08 77ddc7e:C15 237fb3a:C14 c84c1d1:C13 be4d17f:C14 02151a0:C20 80436f0:C12}"
+PAIRS="${@:-6a6860d:C20 d932a21:C20 987ab54:C15 7323a77:C08 3f081f5:C08 5a24c97:C08 77ddc7e:C15 237fb3a:C14 c84c1d1:C13 be4d17f:C14 02151a0:C20 80436f0:C12 ec872b7:C16}"
 for pc in $PAIRS; do
   c=${pc%%:*}; k=${pc##*:}; W=/tmp/revwt_$c
   git -C /repo worktree add -q --detach $W HEAD || { echo "$c $k worktree failed" >> $L; continue; }
